@@ -263,6 +263,7 @@ func (r *run) rejoin(e Ev) {
 	synctest.Wait()
 	old.mq.Disconnect(0)
 	a := w.replaceActor(old)
+	r.mon.honest[a.name] = true // the fresh client of the same application is judged like the one it replaces
 	wasAuto := w.mongo.Auto
 	w.mongo.Auto = true
 	r.connect(a)
